@@ -173,7 +173,7 @@ func c04Counts(tier string) (singles, doubles, trunc, soups, nest, series int) {
 func init() {
 	core.Register(&core.Prop{
 		ID: "C04", Level: "exploration",
-		Rule: "inputs, in fixed case ranges: (1) EVERY single schema fault (null, 5 wrong types, empty, absent, duplicated, oversized, negative number, object nested into itself) at EVERY JSON path of four hand-written representative documents (full-featured SPDX 2.3, CycloneDX 1.4, 1.5, nested components with duplicate/missing refs); " +
+		Rule: "inputs, in fixed case ranges: (1) EVERY single schema fault (null, 5 wrong types, empty, absent, duplicated, oversized, negative number, object nested into itself, strings cut short or in another letter case, runs of nulls) at EVERY JSON path of four hand-written representative documents (full-featured SPDX 2.3, CycloneDX 1.4, 1.5, nested components with duplicate/missing refs); " +
 			"(2) double faults: PRNG-chosen pairs (quick 20 000; thorough 1.2 M); (3) byte-prefix truncations of the representative documents (quick every 7th, thorough every one); (4b) the full product of top-level sections being absent, null, empty, holding a null or empty entry, or minimal (2230 skeleton documents); (4) random bytes, JSON token soups and texts of the tag-value family (tags with empty, blank, wrapped, foreign or truncated values, mixed line endings); " +
 			"(5) nesting of arrays/objects/components to depth 10 000; (6) size series k=4,8,16,20,24,32 for every array path and for component nesting. " +
 			"Every input goes through SniffReader, ParseStream, ParseStreamWithOptions for each of the 7 registered formats and each registered parser called directly, inside a supervised child: recover() catches panics, the parent attributes a dead child to the logged case, " +
@@ -187,7 +187,7 @@ func init() {
 		Case:    c04Case,
 		CaseCPU: 10,
 		ExhaustiveSubspaces: func(tier string) []string {
-			out := []string{"every single schema fault (18 kinds) at every JSON path of the four representative documents",
+			out := []string{"every single schema fault (21 kinds) at every JSON path of the four representative documents",
 				"every combination of the top-level sections of a document being absent, null, empty, holding a null or an empty entry, or minimal (CycloneDX: 3 versions x 7 metadata x 6 components x 5 dependencies; SPDX: 5 packages x 4 files x 5 relationships x 4 documentDescribes x 4 creationInfo)"}
 			if tier == "thorough" {
 				out = append(out, "every byte-prefix truncation of the representative documents")
